@@ -576,6 +576,12 @@ func c06Fixed(c *core.Ctx, v2 bool) {
 	doc["transform_declarations"] = passThroughDecl(names)
 	schema, _ := json.Marshal(doc)
 	nrec := r.Range(1, 40)
+	if r.Chance(1, 6) {
+		// enough records for the reader's buffer to be refilled several times, at whatever alignment the line lengths give
+		nrec = r.Range(100, 400)
+		c.Inc("inputs_with_100plus_records")
+	}
+	blankInside := rows > 1 && r.Chance(1, 3) // empty lines (which the readers skip) also between the rows of one record
 	var sb strings.Builder
 	var exp []c06Expect
 	nontrivial := false
@@ -615,6 +621,10 @@ func c06Fixed(c *core.Ctx, v2 bool) {
 			sb.WriteString(l)
 			if i < nrec-1 || li < rows-1 || r.Chance(2, 3) {
 				sb.WriteString(r.Pick("\n", "\n", "\r\n"))
+			}
+			if blankInside && li < rows-1 && r.Chance(1, 3) {
+				sb.WriteString(r.Pick("\n", "\r\n", "\n\n"))
+				c.Inc("blank_lines_inside_a_record")
 			}
 		}
 		if r.Chance(1, 8) && i < nrec-1 {
